@@ -271,7 +271,7 @@ ExecField(dp, raw, m) ==
         env == EnvU(raw, m)
     IN
     CASE f.k \in {"Int", "Data", "Ref", "RefSel"} -> ExecValueField(dp, raw, m, f)
-      [] f.k = "Em" ->
+      [] f.k \in {"Em", "Emb"} ->      \* (an embedding reference is a no-op: its fields follow as fields of this class)
             [m EXCEPT !.stack = SetTop(@, Advance(fr, m.cur)), !.evs = Append(@, Event(dp, fr, m.cur))]
       [] f.k = "Move" ->
             LET a == MoveArg(f.mv, env) IN
@@ -439,6 +439,7 @@ PackField(dp, p) ==
             IF ~has THEN FailP(p) ELSE PackValue(dp, p, f, Lookup(fr.vals, f.name))
       [] f.k = "Em" ->
             LET r == PAppend(p, <<>>) IN IF r.ok THEN PDone(dp, r.p) ELSE FailP(r.p)
+      [] f.k = "Emb" -> PDone(dp, p)
       [] f.k = "Move" ->
             LET a == MoveArg(f.mv, env) IN
             IF ~a.ok \/ a.v.t # "int" THEN FailP(p)
